@@ -329,10 +329,30 @@ def special_c20(tier, seed, replay):
                                     {"cells": [list(c)], "violation": "C20:required-cell-is-ill-formed", "compiler": err[-2500:],
                                      "source": 'template void mx::op_%s<mx::Cfg<mx::%s, mx::%s, %s, mx::%s>>();' % c})
         res["violations"].append((path, ""))
+    # the documented constructor forms at run time: a form that compiles but selects another overload (the allocator is
+    # silently dropped) is as unavailable as one that does not compile
+    forms_ok = 0
+    if not replay:
+        b, err = build_flags("ctor_forms.cpp", "ctor_forms", ["-O0", "-g", "-fsanitize=address,undefined", "-fno-sanitize=alignment"])
+        if b is None:
+            path = write_replay_special("C20", tier, seed, "failing-input", ["ctor_forms.cpp"],
+                                        {"violation": "C20:documented-constructor-form-is-ill-formed", "compiler": err[-2500:]})
+            res["violations"].append((path, ""))
+        else:
+            r = subprocess.run([b], stdout=subprocess.PIPE, stderr=subprocess.PIPE, text=True, timeout=300,
+                               env=dict(os.environ, ASAN_OPTIONS="detect_leaks=0"))
+            viol = [l for l in r.stdout.split("\n") if l.startswith("!viol")]
+            forms_ok = len([l for l in r.stdout.split("\n") if l.startswith("form ") and "resource=1" in l])
+            if viol or r.returncode != 0 or "end failures=0" not in r.stdout:
+                path = write_replay_special("C20", tier, seed, "failing-input", ["ctor_forms"],
+                                            {"violation": (viol or ["C20:constructor-forms-program-aborted"])[0], "all": viol,
+                                             "exit": r.returncode, "stderr": r.stderr[-1500:]})
+                res["violations"].append((path, ""))
     hist = {}
     for c in cells:
         hist[c[1] + "/" + c[2]] = hist.get(c[1] + "/" + c[2], 0) + 1
-    res["coverage"] = {"evaluations": len(cells), "distinct_nontrivial": len(set(cells)), "exhaustive": tier == "thorough",
+    res["coverage"] = {"evaluations": len(cells) + forms_ok, "constructor_forms_run": forms_ok,
+                       "distinct_nontrivial": len(set(cells)), "exhaustive": tier == "thorough",
                        "samples": [{"cell": list(c)} for c in cells[:4]], "ill_formed_cells": len(bad), "cells_per_category_value": hist}
     return res
 
